@@ -229,8 +229,9 @@ class YPPrologVisitor(prologVisitor):
     def _debug(self,*args):
         if self.context.debug_parser:
             msg = " ".join([str(a) for a in args])
-            # the message may contain line breaks (quoted atoms): every line is a comment
-            for line in msg.splitlines() or ['']:
+            # the message may contain line breaks (quoted atoms): every line is a comment.
+            # Python source cannot contain NUL characters, not even in a comment.
+            for line in msg.replace('\0', '\\0').splitlines() or ['']:
                 self.context.outf.write('# ' + line + '\n')
 
     def visitProgram(self,ctx):
